@@ -300,11 +300,15 @@ func (ir *ifdReader) fastRead(n int) (buf []byte, err error) {
 		ir.po += uint32(n)
 		return
 	}
-	if n, err = ir.reader.Read(ir.buffer.buf[:n]); err != nil {
+	if n < 0 || n > bufferLength {
+		return nil, imagetype.ErrDataLength
+	}
+	if n, err = io.ReadFull(ir.reader, ir.buffer.buf[:n]); err != nil {
+		ir.po += uint32(n)
 		if ir.logLevelError() {
 			ir.logError(err).Msg("Read error")
 		}
-		return
+		return nil, err
 	}
 	ir.po += uint32(n)
 	return ir.buffer.buf[:n], err
